@@ -259,24 +259,32 @@ def check_same_as_n(Qd, Hd, Qn, Hn, n, m):
     return None
 
 
-def check_scaled(Qs, Hs, Q1, H1, c, dt, A_s, steps_s, steps_1, kdim, m, jmax, steps_ok=True):
-    """Scale equivariance against the run on the unscaled operator (same dtype, start vector, max_iters, tol): same
-    number of steps, same basis, H = c * H_1, up to rounding.  Compared on the leading well-determined part: the
-    first min(m + 1, KDim, jmax + 1) columns of Q (all, when the scaling is exact: c a power of two)."""
+def check_scaled(Qs, Hs, Q1, H1, c, dt, A_s, steps_s, steps_1, kdim, m, jmax, steps_ok=True, tight=None, tq=None):
+    """Equivariance against the reference run (unscaled operator resp. the same start direction in the operator's
+    dtype; same max_iters, tol): same number of steps, same basis, H = c * H_1 (c = None: H = H_1), up to rounding;
+    outputs in the operator's dtype.  Compared on the leading well-determined part: the first
+    min(m + 1, KDim, jmax + 1) columns of Q (everything, to 1e-12, when the variant is exact - tight: factors are
+    powers of two / the start vector has the same values in another dtype)."""
     rt, _ = kf.tol_of(dt)
     sA = max(float(np.abs(A_s).sum(1).max()), 1e-300)
+    tight = kf.is_pow2(c) if tight is None else tight
+    c = 1.0 if c is None else c
+    if Qs.dtype != Q1.dtype or Hs.dtype != H1.dtype:
+        return (f"outputs have dtypes {Qs.dtype} / {Hs.dtype}, the reference run in the operator's dtype {Q1.dtype} / "
+                f"{H1.dtype}", {"which": "dtype"})
     if steps_ok and steps_s is not None and steps_1 is not None and steps_s != steps_1:
         return (f"{steps_s} Arnoldi steps for {c:g}*A but {steps_1} for A", {"which": "steps"})
     if Qs.shape != Q1.shape or Hs.shape != H1.shape:
         return (f"shapes {Qs.shape} {Hs.shape} for {c:g}*A but {Q1.shape} {H1.shape} for A", {"which": "shape"})
     if not (np.all(np.isfinite(Q1)) and np.all(np.isfinite(H1))):
         return None
-    if kf.is_pow2(c) and steps_ok:
+    tq = (1e-12 if tight else rt) if tq is None else tq
+    if tight and steps_ok:
         lead = Qs.shape[1]
-        tq, th = 1e-12, 1e-12
     else:
         lead = min(Qs.shape[1], m + 1, jmax + 1, kdim if kdim is not None else 1)
-        tq, th = rt, rt
+        tq = tq if not tight else max(tq, rt)
+    th = tq
     Qs, Q1 = Qs.astype(np.complex128), Q1.astype(np.complex128)
     Hs, H1 = Hs.astype(np.complex128), H1.astype(np.complex128) * c
     dq = float(np.abs(Qs[:, :lead] - Q1[:, :lead]).max(initial=0.0))
@@ -342,7 +350,8 @@ def call_arnoldi(A_op, v, m, tol, n, tag, api="arnoldi", kd=0, default_tol=False
             warnings.simplefilter("ignore")
             with np.errstate(all="ignore"):
                 if api == "Arnoldi":
-                    Q, H, info = Arnoldi(start_vector=v, max_iters=m, **kw)(A_op)
+                    # the object's own default tolerance is another one (1e-6): the comparison needs the same value
+                    Q, H, info = Arnoldi(start_vector=v, max_iters=m, tol=tol)(A_op)
                 else:
                     Q, H, info = arnoldi(A_op, v, max_iters=m, **kw)
     finally:
@@ -372,9 +381,16 @@ def mk_viol(item, clause, detail, m, extra, n, kdim, batched, api, dt, tol):
     if sc is not None:      # scaled copy of an existing case: the attrs of the original plus the factor
         at["op_scale"] = float(sc)
         at["tol_default"] = item.get("tol") is None
+    var = ""
+    if item.get("start_scale") is not None:
+        at["start_scale"] = float(item["start_scale"])
+        var += f" vscale={item['start_scale']:g}"
+    if item.get("start_dtype"):
+        at["start_dtype"] = item["start_dtype"]
+        var += f" vdtype={item['start_dtype']}"
     at.update(extra)
     case = f"{item['name']} {dt} m={m} tol={tol:g}{' batched' if batched else ''}" \
-           f"{'' if sc is None else f' scale={sc:g}'} {api}"
+           f"{'' if sc is None else f' scale={sc:g}'}{var} {api}"
     rp = dict(item)
     rp["only_m"] = m
     return Violation(PROP, clause, case, at, detail, replay=rp)
@@ -409,8 +425,29 @@ def run_family(item, A, vs, kdims, Ks, wants, etol_rel, detect_ok, ms, hss=None,
         A1 = np.real(A1)
     A_t = A.astype(npd)
     A_op = cola.ops.Dense(A_t)
-    A_op1 = cola.ops.Dense(A1.astype(npd)) if sc is not None else None
-    ca = dict(kd=kd_tr, default_tol=dflt, sc=sc)
+    # start-vector variants (start invariance): the vector handed to cola is c*v and / or given in a dtype other than
+    # the operator's; the reference run takes the same direction in the operator's dtype
+    ssc, sdt = item.get("start_scale"), item.get("start_dtype")
+    variant = sc is not None or ssc is not None or sdt is not None
+    vclause = "scale_equivariance" if (ssc is None and sdt is None) else "start_invariance"
+
+    def mkv(x):
+        y = x * ssc if ssc is not None else x
+        return kf.cast_start(y, sdt) if sdt else y.astype(npd)
+
+    def refv(x):        # a dtype variant keeps the values (rounded to a narrower float): the reference takes them
+        if not sdt:
+            return x.astype(npd)
+        return mkv(x).astype(npd) if ssc is None else (mkv(x).astype(np.complex128) / ssc).astype(npd)
+    dyadic = (sc is None or kf.is_pow2(sc)) and (ssc is None or kf.is_pow2(ssc))
+    # tolerance of the comparison with the reference run: exact variants (powers of two) agree on everything to a few
+    # ulps; a start vector with the same values in another dtype is normalised in ITS dtype before it is promoted, so
+    # the runs agree up to the rounding of the narrower of the two float types (integers: the operator's) on the
+    # well-determined leading part; non-dyadic factors: the relative tolerance of the other clauses
+    tight = dyadic and sdt is None
+    vtol = max(1e-12, 100 * eps) if tight else kf.start_tol(dt, sdt) if dyadic else rt
+    A_op1 = cola.ops.Dense(A1.astype(npd)) if variant else None
+    ca = dict(kd=kd_tr, default_tol=dflt, sc=(sc if sc is not None else ssc if ssc is not None else sdt))
     viol, traces, nchk = [], [], 0
     batched = len(vs) > 1
     run_n = None
@@ -422,7 +459,7 @@ def run_family(item, A, vs, kdims, Ks, wants, etol_rel, detect_ok, ms, hss=None,
         if exact:       # nothing to gate: every quantity of the run is an exact floating-point number
             hss.append(None)
             continue
-        Kr, hs = kf.ref_for(A_t, x.astype(npd), kdims[b], n, jmax, thr * item.get("thr_scale", 1.0), detect_ok)
+        Kr, hs = kf.ref_for(A_t, refv(x), kdims[b], n, jmax, thr * item.get("thr_scale", 1.0), detect_ok)
         hss.append(hs if kdims[b] is not None else None)
         if Ks[b] is None:
             Ks[b] = Kr
@@ -432,7 +469,7 @@ def run_family(item, A, vs, kdims, Ks, wants, etol_rel, detect_ok, ms, hss=None,
         tag = f"{item['name']}|{dt}|{m}"
         try:
             if not batched:
-                v = vs[0].astype(npd)
+                v = mkv(vs[0])
                 Q, H, info, tr = call_arnoldi(A_op, v, m, tol, n, tag, **ca)
                 traces += tr
                 Qd, Hd = np.asarray(Q.to_dense()), np.asarray(H.to_dense())
@@ -444,17 +481,16 @@ def run_family(item, A, vs, kdims, Ks, wants, etol_rel, detect_ok, ms, hss=None,
                 nchk += 1
                 for cl, de, ex in res:
                     viol.append(mk_viol(item, cl, de, m, ex, n, kdims[0], False, "arnoldi", dt, tol))
-                if sc is not None and not any(cl in ("shape", "finite") for cl, _, _ in res):
-                    Q1, H1, _, tr1 = call_arnoldi(A_op1, v, m, tol, n, tag + "|unscaled", **ca)
+                if variant and not any(cl in ("shape", "finite") for cl, _, _ in res):
+                    Q1, H1, _, tr1 = call_arnoldi(A_op1, refv(vs[0]), m, tol, n, tag + "|reference", **ca)
                     nchk += 1
                     msg = check_scaled(Qd, Hd, np.asarray(Q1.to_dense()), np.asarray(H1.to_dense()), sc, dt, A_t,
                                        tr[0]["fin"]["steps"] if len(tr) == 1 else None,
                                        tr1[0]["fin"]["steps"] if len(tr1) == 1 else None, kdims[0], m, jmax,
-                                       steps_ok=(detectable or kf.is_pow2(sc)) and not count_bad
-                                       and not kf.null_start(hss[0], A_t))
+                                       steps_ok=(detectable or dyadic) and not count_bad
+                                       and not kf.null_start(hss[0], A_t), tight=tight, tq=vtol)
                     if msg:
-                        viol.append(mk_viol(item, "scale_equivariance", msg[0], m, msg[1], n, kdims[0], False, "arnoldi",
-                                            dt, tol))
+                        viol.append(mk_viol(item, vclause, msg[0], m, msg[1], n, kdims[0], False, "arnoldi", dt, tol))
                 if m > n:
                     if run_n is None:
                         Qn, Hn, _, trn = call_arnoldi(A_op, v, n, tol, n, f"{item['name']}|{dt}|{n}", **ca)
@@ -467,6 +503,17 @@ def run_family(item, A, vs, kdims, Ks, wants, etol_rel, detect_ok, ms, hss=None,
                 if m >= n and item.get("eigs", True) and wants[0] is not None:
                     ev, Vd = call_eigs(A_op, v, m, tol, default_tol=dflt)
                     nchk += 1
+                    if ssc is not None or sdt is not None:      # arnoldi_eigs: same eigenvalues as the reference run
+                        ev1, _ = call_eigs(A_op1, refv(vs[0]), m, tol, default_tol=dflt)
+                        bad = ev.shape != ev1.shape or not np.all(np.isfinite(ev))
+                        if not bad and np.all(np.isfinite(ev1)):
+                            miss, extra = kf.match_multiset(ev, ev1, max(etol_rel, rt) * max(float(np.abs(A_t).sum(1).max()), 1e-300))
+                            bad = bool(miss or extra) and not count_bad and (detectable or kdims[0] == n) \
+                                and not kf.null_start(hss[0], A_t)
+                        if bad:
+                            viol.append(mk_viol(item, vclause, f"arnoldi_eigs returns {np.round(ev, 5).tolist()} but "
+                                                f"{np.round(ev1, 5).tolist()} for the same direction in the operator's dtype",
+                                                m, {"which": "eigs"}, n, kdims[0], False, "arnoldi_eigs", dt, tol))
                     if not count_bad and (detectable or kdims[0] == n):
                         s_exp = min(m, n, kdims[0])
                         for cl, de, ex in check_eigs(A_t, ev, Vd, m, tol, dt, wants[0], etol_rel, s_exp):
@@ -482,7 +529,7 @@ def run_family(item, A, vs, kdims, Ks, wants, etol_rel, detect_ok, ms, hss=None,
                                             "arnoldi(A, start_vector, max_iters, tol)", m, {}, n, kdims[0], False,
                                             "Arnoldi", dt, tol))
             else:
-                V = np.stack([x.astype(npd) for x in vs], axis=1)      # (n, b)
+                V = np.stack([mkv(x) for x in vs], axis=1)      # (n, b)
                 Q, H, info, tr = call_arnoldi(A_op, V, m, tol, n, tag + "|batched", **ca)
                 traces += tr
                 QA, HA = np.asarray(Q.A), np.asarray(H.A)
@@ -512,8 +559,9 @@ def run_family(item, A, vs, kdims, Ks, wants, etol_rel, detect_ok, ms, hss=None,
                                                  start_in_nullspace=any(kf.null_start(h, A_t) for h in hss)), n, kmax, True,
                                             "arnoldi", dt, tol))
                 Q1A = H1A = s1 = None
-                if sc is not None:
-                    Q1, H1, _, tr1 = call_arnoldi(A_op1, V, m, tol, n, tag + "|batched|unscaled", **ca)
+                if variant:
+                    Q1, H1, _, tr1 = call_arnoldi(A_op1, np.stack([refv(x) for x in vs], axis=1), m, tol, n,
+                                                  tag + "|batched|reference", **ca)
                     nchk += 1
                     Q1A, H1A = np.asarray(Q1.A), np.asarray(H1.A)
                     s1 = tr1[0]["fin"]["steps"] if len(tr1) == 1 else None
@@ -524,10 +572,10 @@ def run_family(item, A, vs, kdims, Ks, wants, etol_rel, detect_ok, ms, hss=None,
                     res = res[0] if isinstance(res, tuple) else res
                     if Q1A is not None and Q1A.shape == QA.shape and H1A.shape == HA.shape:
                         msg = check_scaled(QA[b], HA[b], Q1A[b], H1A[b], sc, dt, A_t, bsteps, s1, kdims[b], m, jmax,
-                                           steps_ok=b == 0 and (detectable or kf.is_pow2(sc)) and known and not cb
-                                           and not any(kf.null_start(h, A_t) for h in hss))
+                                           steps_ok=b == 0 and (detectable or dyadic) and known and not cb
+                                           and not any(kf.null_start(h, A_t) for h in hss), tight=tight, tq=vtol)
                         if msg:
-                            res = list(res) + [("scale_equivariance", msg[0], msg[1])]
+                            res = list(res) + [(vclause, msg[0], msg[1])]
                     for cl, de, ex in res:
                         ex = dict(ex)
                         ex.update(uni)
@@ -738,6 +786,75 @@ def plan_struct(quick):
     return items
 
 
+def in_variant_subset(it, quick):
+    """Deterministic subset of the planned items from which the scaled-operator and start-vector variants are derived."""
+    nonx = ("h3pd:", "h3cind:", "h4rep:", "g2jordan:", "g3nn:", "g3sing:", "g4jordan:", "g4circ:", "g3plain:", "h1:")
+    starts = (":gen", ":ev1", ":ev1+2", ":batch-mixed", ":batch-kdim2", "h3cind:ev3", "h3cind:batch-kdim1")
+    xm = ("x1c:", "xperm4b:", "xdiag3z:", "xblk4:", "xnil4:") if quick else \
+        ("x1c:", "xperm4:", "xperm4b:", "xmono3c:", "xdiag3z:", "xblk4:", "xblk4c:", "xid4:", "xnil4:")
+    sn = ("struct-perm-batch-n7", "struct-perm-c5-n64", "struct-block-n7", "struct-shift-batch", "struct-cmono-n6",
+          "struct-diag-n200")
+    nm, dt = it["name"], it["dt"]
+    if it["src"] == "catalog" and not it.get("exact"):
+        return nm.startswith(nonx) and nm.endswith(starts)
+    if it["src"] == "catalog":
+        return nm.startswith(xm) and not (quick and (it["tol"] != 0 or dt in ("f32", "c128") and it["cases"][0]["real"]))
+    if it["src"] == "struct":
+        return nm.startswith(sn) and not (quick and dt != it["dts"][0])
+    if "reorth" in nm or it["kind"].startswith("herm") or it["n"] not in ((5, 30, 200) if quick else (1, 2, 5, 13, 30, 200)):
+        return False
+    return not (quick and (it["vkind"] == "eigvec" or it["kind"] == "dense" and "batch" not in nm))
+
+
+def plan_start(items, quick):
+    """Start-invariance family: the same deterministic subset as plan_scaled, the start vector(s) multiplied by
+    c in kf.START_SCALES (1e-30: double precision only; exact-breakdown cases: the dyadic 2^-44, tol = 0 included)
+    and / or handed over in a dtype other than the operator's (kf.start_dtypes: narrower / wider float, real for a
+    complex operator, integer when the entries are integral), single and batched; arnoldi, arnoldi_eigs and the
+    Arnoldi() object.  Every clause of the original applies unchanged (KDim, spans, spectra do not depend on the
+    length or the number type of v); clause start_invariance compares with the run on the same direction in the
+    operator's dtype."""
+    out, seen, k = [], {}, 0
+    for it in items:
+        nm, dt = it["name"], it["dt"]
+        if not in_variant_subset(it, quick) or (quick and it.get("n", 0) >= 100):
+            continue
+        key = (nm, dt)
+        if key in seen:
+            continue
+        seen[key] = True
+        lo = dt in ("f32", "c64")
+        if it["src"] == "catalog":
+            real_v, integral_v = all(all(x[1] == 0 for x in c["v"]) for c in it["cases"]), True
+        elif it["src"] == "struct":
+            real_v, integral_v = it["op"][0] not in ("cmono", "cblock") or True, True
+        else:
+            real_v, integral_v = not it["cplx"], False
+        sd = kf.start_dtypes(dt, real_v, integral_v)
+        if it["src"] == "random" and it["vkind"] != "generic":
+            # rounding the start vector to a narrower float leaves the invariant subspace: KDim would not be known
+            sd = [d for d in sd if kf.start_tol(dt, d) <= 1e3 * float(np.finfo(kf.NPDT[dt]).eps)]
+        if it.get("exact"):
+            var = [(kf.START_SCALE_EXACT, None)] + [(None, d) for d in sd]
+        else:
+            var = [(c, None) for c in kf.START_SCALES if not (lo and c < 1e-20)] + [(None, d) for d in sd] \
+                + ([(1e-13, sd[0])] if sd else [])
+        if quick:
+            var = [var[k % len(var)]]
+        for c, d in var:
+            k += 1
+            cp = dict(it)
+            cp["start_scale"], cp["start_dtype"] = c, d
+            cp["alg_obj"] = it.get("n", 4) <= 16
+            if not it.get("exact") and k % 3 == 0:
+                cp["tol"] = None        # default tolerance (argument omitted)
+            if it["src"] == "random" and it["n"] > 13:
+                cp["ms"] = it["ms"][-3:] if quick else it["ms"][-5:]
+                cp["eigs"] = it["n"] <= 30
+            out.append(cp)
+    return out
+
+
 def plan_scaled(items, quick):
     """Scale-equivariance family: scaled copies c*A of a deterministic subset of the items planned above (catalog,
     exact-breakdown, by-construction and random cases; single and batched), c in kf.SCALES where the dtype can
@@ -746,30 +863,11 @@ def plan_scaled(items, quick):
     clause scale_equivariance compares with the run on A."""
     out = []
     seen = {}
-    nonx = ("h3pd:", "h3cind:", "h4rep:", "g2jordan:", "g3nn:", "g3sing:", "g4jordan:", "g4circ:", "g3plain:", "h1:")
-    starts = (":gen", ":ev1", ":ev1+2", ":batch-mixed", ":batch-kdim2", "h3cind:ev3", "h3cind:batch-kdim1")
-    xm = ("x1c:", "xperm4b:", "xdiag3z:", "xblk4:", "xnil4:") if quick else \
-        ("x1c:", "xperm4:", "xperm4b:", "xmono3c:", "xdiag3z:", "xblk4:", "xblk4c:", "xid4:", "xnil4:")
-    sn = ("struct-perm-batch-n7", "struct-perm-c5-n64", "struct-block-n7", "struct-shift-batch", "struct-cmono-n6",
-          "struct-diag-n200")
     k = 0
     for it in items:
         nm, dt = it["name"], it["dt"]
-        if it["src"] == "catalog" and not it.get("exact"):
-            if not (nm.startswith(nonx) and nm.endswith(starts)):
-                continue
-        elif it["src"] == "catalog":
-            if not nm.startswith(xm) or (quick and (it["tol"] != 0 or dt in ("f32", "c128") and it["cases"][0]["real"])):
-                continue
-        elif it["src"] == "struct":
-            if not nm.startswith(sn) or (quick and dt != it["dts"][0]):
-                continue
-        else:
-            if "reorth" in nm or it["kind"].startswith("herm") or it["n"] not in ((5, 30, 200) if quick else
-                                                                                   (1, 2, 5, 13, 30, 200)):
-                continue
-            if quick and (it["vkind"] == "eigvec" or it["kind"] == "dense" and "batch" not in nm):
-                continue
+        if not in_variant_subset(it, quick):
+            continue
         key = (nm, dt)      # one set of scaled copies per (case, dtype): derived from the first tolerance planned
         if key in seen:
             continue
@@ -798,7 +896,7 @@ def plan_scaled(items, quick):
 
 def plan(cs, tier, seed):
     items = plan_unscaled(cs, tier, seed)
-    return items + plan_scaled(items, tier == "quick")
+    return items + plan_scaled(items, tier == "quick") + plan_start(items, tier == "quick")
 
 
 def plan_unscaled(cs, tier, seed):
@@ -949,6 +1047,14 @@ def _run(tier, t0, proof):
         "exact_breakdown_items": len([it for it in items if it.get("exact")]),
         "exact_breakdown_items_tol0": len([it for it in items if it.get("exact") and it["tol"] == 0]),
         "exact_breakdown_struct_items": len([it for it in items if it["src"] == "struct" and not it.get("op_scale")]),
+        "start_variant_items": len([it for it in items if it.get("start_scale") or it.get("start_dtype")]),
+        "start_variant_items_by_scale": {f"{c:g}": len([it for it in items if it.get("start_scale") == c])
+                                         for c in kf.START_SCALES + (kf.START_SCALE_EXACT, )},
+        "start_variant_items_by_dtype": {d: len([it for it in items if it.get("start_dtype") == d]) for d in kf.VDT},
+        "start_variant_items_batched": len([it for it in items if (it.get("start_scale") or it.get("start_dtype")) and
+                                            (len(it.get("cases", [])) > 1 or it.get("batch", 1) > 1
+                                             or len(it.get("starts", [])) > 1)]),
+        "tlc_start_scale_invariant_cases": stats.get("start_scale_invariant_cases"),
         "scaled_items": len([it for it in items if it.get("op_scale")]),
         "scaled_items_by_scale": {f"{c:g}": len([it for it in items if it.get("op_scale") == c]) for c in kf.SCALES},
         "scaled_items_batched": len([it for it in items if it.get("op_scale") and (len(it.get("cases", [])) > 1
